@@ -195,6 +195,7 @@ fn cursor_walk(tree: &Tree) -> String {
 }
 
 struct Emit {
+    current: String,
     out: std::io::BufWriter<std::fs::File>,
     langs_seen: BTreeMap<String, String>,
     cases: usize,
@@ -214,6 +215,10 @@ impl Emit {
     /// Run one history against the real runtime; returns number of cases written.
     fn history(&mut self, prefix: &str, h: &History, b: &zoo::Built) -> usize {
         self.lang(&h.lang, b);
+        // if the runtime aborts below, the check finds the history that did it here
+        if !h.steps.is_empty() {
+            let _ = std::fs::write(&self.current, h.spec(h.steps.len() - 1));
+        }
         let mut parser = Parser::new();
         parser.set_language(&b.language).unwrap();
         if !ranges_valid(&h.text, &h.ranges0) {
@@ -376,7 +381,7 @@ fn main() {
     let args: Vec<String> = std::env::args().collect();
     let out_path = args.get(1).expect("usage: c01 <ops-file> <langs-file> [--spec file] [lang...]").clone();
     let langs_path = args.get(2).expect("langs file").clone();
-    let mut em = Emit { out: std::io::BufWriter::with_capacity(1 << 20, std::fs::File::create(&out_path).unwrap()), langs_seen: BTreeMap::new(), cases: 0 };
+    let mut em = Emit { current: format!("{out_path}.current"), out: std::io::BufWriter::with_capacity(1 << 20, std::fs::File::create(&out_path).unwrap()), langs_seen: BTreeMap::new(), cases: 0 };
     let mut built: BTreeMap<String, zoo::Built> = BTreeMap::new();
     let mut get = |id: &str, built: &mut BTreeMap<String, zoo::Built>| -> bool {
         if !built.contains_key(id) {
@@ -394,6 +399,7 @@ fn main() {
     };
     let finish = |em: &mut Emit, langs_path: &str| {
         em.out.flush().unwrap();
+        let _ = std::fs::remove_file(&em.current);
         let mut f = std::fs::File::create(langs_path).unwrap();
         for v in em.langs_seen.values() {
             writeln!(f, "{v}").unwrap();
